@@ -301,3 +301,185 @@ def replay_stale_buffer():
     t2 = ND.NonadiabaticDynamicsBase._get_tensor(cache, ("k",), (2, 2), torch.device("cpu"), torch.long, fill_value=-1)
     print("replay scratch buffer: second request returns", t2.tolist())
     return bool((t2 != -1).any())
+
+
+def replay_tdc_antisymmetry(nstates):
+    """float64: the real assembly of compute_tdc_hamiltonian_fd with the heavy contractions replaced by distinct numbers:
+    is the returned coupling matrix antisymmetric?"""
+    import seqm.dynamics.tdc_hamiltonian_fd as T
+
+    D = _tdc_assemble(T, nstates, symbolic=False)
+    asym = (D + D.transpose(1, 2)).abs().max().item()
+    print("replay TD-NAC assembly, %d states: max |D + D^T| = %.3e" % (nstates, asym))
+    return asym > 1e-12
+
+
+def _tdc_assemble(T, nstates, symbolic=True):
+    """run the real compute_tdc_hamiltonian_fd with stubbed geometry/integral/contraction callees; the contraction of state
+    pair p of molecule b returns the symbol h_b_p (or a distinct number), state energies are symbols E_b_k"""
+    nmol, nocc, nvirt, molsize = 2, 1, 2, 1
+    names = ("build_fd_displaced_geometries", "_pair_geometry_from_coords", "_directional_overlap_derivative", "_directional_tetci_derivative", "_prepare_pair_operators_for_directional_nac", "unpackone_batch", "_contract_pair_density_directional_batch")
+    saved = {k: getattr(T, k) for k in names}
+    count = [0]
+
+    def contract(mol, B, o, e1, e2, nm):
+        nb = B.shape[1]
+        if symbolic:
+            out = SymTensor(np.array([[z3.Real("h_%d_%d" % (b, count[0] + p)) for p in range(nb)] for b in range(nmol)], dtype=object))
+        else:
+            out = torch.tensor([[1.0 + 10 * b + (count[0] + p) for p in range(nb)] for b in range(nmol)], dtype=torch.float64)
+        count[0] += nb
+        return out
+
+    T.build_fd_displaced_geometries = lambda *a, **k: (None, None)
+    T._pair_geometry_from_coords = lambda *a, **k: (None, None)
+    T._directional_overlap_derivative = lambda *a, **k: None
+    T._directional_tetci_derivative = lambda *a, **k: (None, None, None)
+    T._prepare_pair_operators_for_directional_nac = lambda *a, **k: (None, None, None)
+    T.unpackone_batch = lambda x, *a, **k: torch.zeros(x.shape[0], molsize * 4, molsize * 4, dtype=torch.float64)
+    T._contract_pair_density_directional_batch = contract
+    try:
+        amp = torch.arange(nmol * nstates * nocc * nvirt, dtype=torch.float64).reshape(nmol, nstates, nocc * nvirt)
+        if symbolic:
+            en = SymTensor(np.array([[z3.Real("E_%d_%d" % (b, k)) for k in range(nstates)] for b in range(nmol)], dtype=object))
+        else:
+            en = torch.tensor([[0.3 * k * k + 0.1 * b + 1.0 for k in range(nstates)] for b in range(nmol)], dtype=torch.float64)
+        mol = types.SimpleNamespace(method="AM1", dm=torch.zeros(nmol, 4, 4, dtype=torch.float64), molecular_orbitals=torch.eye(4, dtype=torch.float64).repeat(nmol, 1, 1), nmol=nmol, molsize=molsize, nocc=torch.tensor([nocc] * nmol), norb=torch.tensor([4] * nmol), nHeavy=torch.tensor([1] * nmol), nHydro=torch.tensor([0] * nmol))
+        nad = types.SimpleNamespace(_dtnact=0.01, timestep=0.1, damp=None)
+        if symbolic:
+            with symbolic_factories():
+                return T.compute_tdc_hamiltonian_fd(nad, mol, {"cis_amp": amp, "energies": en}, None, None, None)
+        return T.compute_tdc_hamiltonian_fd(nad, mol, {"cis_amp": amp, "energies": en}, None, None, None)
+    finally:
+        for k, v in saved.items():
+            setattr(T, k, v)
+
+
+@obligation(PID, "e", title="time-derivative coupling assembled from the Hamiltonian finite difference is antisymmetric with zero diagonal (so the amplitude propagation is norm conserving), and element (i,j), i<j, is state pair (i,j)'s own contraction over E_j - E_i — for 2..6 states, arbitrary contraction values and energies")
+def ob_e(ob):
+    import seqm.dynamics.tdc_hamiltonian_fd as T
+
+    ob.encodes(T.compute_tdc_hamiltonian_fd)
+    ob.bound("2 trajectories, 2..6 excited states; the contraction of each state pair and every state energy are symbolic reals; geometry displacement, overlap/integral derivatives and the pair-density contraction are recorders")
+    ob.assume("state energies pairwise distinct (the code divides by E_j - E_i)")
+    for ns in range(2, 7):
+        S.reset()
+        D = _tdc_assemble(T, ns)
+        ob.require(isinstance(D, SymTensor) and D.a.shape == (2, ns, ns), "unexpected result of compute_tdc_hamiltonian_fd")
+        pairs = [(i, j) for i in range(ns) for j in range(i + 1, ns)]
+        bad = None
+        for b in range(2):
+            E = [z3.Real("E_%d_%d" % (b, k)) for k in range(ns)]
+            distinct = [E[i] != E[j] for i, j in pairs]
+            cl = [D.a[b, i, i] == 0 for i in range(ns)]
+            for p, (i, j) in enumerate(pairs):
+                cl.append(D.a[b, i, j] + D.a[b, j, i] == 0)
+                cl.append(D.a[b, i, j] * (E[j] - E[i]) == z3.Real("h_%d_%d" % (b, p)))
+            v, m = smt.prove(z3.And(*cl), distinct, "e:%d states, trajectory %d" % (ns, b), "nra", 60)
+            if v == "sat":
+                bad = (ns, b)
+                break
+            ob.verdict(v, "e:%d states, trajectory %d" % (ns, b))
+        if bad:
+            if replay_tdc_antisymmetry(ns):
+                ob.violation("time-derivative coupling matrix for %d states is not antisymmetric / pairs are mislabelled: the RK4 amplitude propagation does not conserve the population norm" % ns, {"module": "harness.C17", "func": "replay_tdc_antisymmetry", "args": {"nstates": ns}})
+                return
+            raise HarnessError("TD-NAC assembly counterexample did not reproduce (%d states)" % ns)
+    x, y = z3.Reals("x y")
+    expect_refuted(ob, x + y == 0, [x != y], "twin: two unrelated entries are not antisymmetric", "nra")
+
+
+def _tully(cls_name):
+    import importlib
+
+    T = importlib.import_module("scripts.tully_surface_hopping.TullyModels")
+    cls = getattr(T, cls_name)
+    d = cls.__new__(cls)
+    d._arange_cache = {}
+    d._eye_cache = {}
+    d._nstates = 2
+    d.compute_nac = True
+    return T, d
+
+
+def replay_tully_isolation(active):
+    """float64, real TullyFSSH code on a 2-trajectory batch with the given active states: does every trajectory get the force,
+    potential and time-derivative coupling of its own state / position / velocity?"""
+    T, d = _tully("TullyFSSH")
+    d.model = T.TullyModel.single_crossing()
+    x = torch.tensor([-0.4, 0.7], dtype=torch.float64)
+    v = torch.tensor([1.5, -0.8], dtype=torch.float64)
+    worst = 0.0
+    for fn in ("_compute_electronic_structure", "_recompute_active_force"):
+        d._active_states = torch.tensor(active)
+        mol = types.SimpleNamespace(coordinates=torch.zeros(2, 1, 3, dtype=torch.float64), velocities=torch.zeros(2, 1, 3, dtype=torch.float64))
+        mol.coordinates[:, 0, 0] = x
+        mol.velocities[:, 0, 0] = v
+        if fn == "_compute_electronic_structure":
+            d._compute_electronic_structure(mol, {})
+        else:
+            d._recompute_active_force(mol)
+        E, dE, nac = d.model.pot(x)
+        for b in range(2):
+            dev = [abs(mol.force[b, 0, 0].item() + dE[b, active[b]].item()), abs(mol.Etot[b].item() - E[b, active[b]].item()), abs(mol.nac_dot[b, 0, 1].item() - (nac[b] * v[b]).item())]
+            worst = max(worst, max(dev))
+            print("replay %s active=%s trajectory %d: |force + dE_active|=%.3e |Etot - E_active|=%.3e |nac_dot - d.v|=%.3e" % (fn, active, b, *dev))
+    return worst > 1e-10
+
+
+@obligation(PID, "f", title="Tully model driver, batch isolation: every trajectory gets the force and potential of its own active state at its own position and the coupling d(x_b).v_b of its own velocity — for every pattern of active states, all positions and velocities, arbitrary model potential")
+def ob_f(ob):
+    T, _ = _tully("TullyFSSH")
+    ob.encodes(T._TullyDynamicsMixin._compute_electronic_structure, T.TullyFSSH._recompute_active_force, T.TullyDynamics._after_electronic_update)
+    ob.bound("2 and 3 trajectories; positions, velocities, and the model's energies / slopes / coupling of every trajectory symbolic reals (uninterpreted potential); all patterns of active states in {0,1}^n")
+    import itertools
+
+    known = ob.is_known("C17-tully-force-of-trajectory-0")
+    for n in (2, 3):
+        for active in itertools.product((0, 1), repeat=n):
+            for cls, fn in (("TullyFSSH", "_compute_electronic_structure"), ("TullyFSSH", "_recompute_active_force"), ("TullyDynamics", "_after_electronic_update")):
+                S.reset()
+                T, d = _tully(cls)
+                E = SymTensor(np.array([[z3.Real("E_%d_%d" % (b, k)) for k in range(2)] for b in range(n)], dtype=object))
+                dE = SymTensor(np.array([[z3.Real("dE_%d_%d" % (b, k)) for k in range(2)] for b in range(n)], dtype=object))
+                nac = SymTensor(np.array([z3.Real("d_%d" % b) for b in range(n)], dtype=object))
+                d.model = types.SimpleNamespace(pot=lambda x: (E, dE, nac))
+                d._active_states = torch.tensor(active)
+                d._record_density_matrix = lambda: None
+                co = SymTensor(np.array([[[z3.Real("x_%d" % b), z3.RealVal(0), z3.RealVal(0)]] for b in range(n)], dtype=object))
+                ve = SymTensor(np.array([[[z3.Real("v_%d" % b), z3.Real("vy_%d" % b), z3.RealVal(0)]] for b in range(n)], dtype=object))
+                mol = types.SimpleNamespace(coordinates=co, velocities=ve)
+                with symbolic_factories():
+                    if fn == "_after_electronic_update":
+                        en = d._compute_electronic_structure(mol, {})
+                        d._after_electronic_update(mol, en)
+                    elif fn == "_compute_electronic_structure":
+                        d._compute_electronic_structure(mol, {})
+                    else:
+                        d._recompute_active_force(mol)
+                cl = []
+                for b in range(n):
+                    a = active[b]
+                    F = mol.force.a if isinstance(mol.force, SymTensor) else S.to_obj(mol.force)
+                    Et = mol.Etot.a if isinstance(mol.Etot, SymTensor) else S.to_obj(mol.Etot)
+                    nd = mol.nac_dot.a if isinstance(mol.nac_dot, SymTensor) else S.to_obj(mol.nac_dot)
+                    cl += [F[b, 0, 0] == -z3.Real("dE_%d_%d" % (b, a)), Et.reshape(-1)[b] == z3.Real("E_%d_%d" % (b, a))]
+                    cl += [nd[b, 0, 1] == z3.Real("d_%d" % b) * z3.Real("v_%d" % b), nd[b, 1, 0] == -z3.Real("d_%d" % b) * z3.Real("v_%d" % b)]
+                lab = "f:%s.%s active=%s" % (cls, fn, active)
+                v, m = smt.prove(z3.And(*cl), [], lab, "nra", 60)
+                if v == "sat":
+                    mixed = len(set(active)) > 1
+                    if known and mixed and cls == "TullyFSSH":
+                        if not ob.known_lines:
+                            if not replay_tully_isolation(list(active)[:2] if len(set(active[:2])) > 1 else [0, 1]):
+                                raise HarnessError("known finding C17-tully-force-of-trajectory-0 no longer reproduces: remove it from known_findings.json")
+                            ob.known_finding("C17-tully-force-of-trajectory-0", known["what"])
+                        continue
+                    act2 = list(active)[:2]
+                    if replay_tully_isolation(act2) or replay_tully_isolation(list(active)[-2:]):
+                        ob.violation("%s.%s with active states %s: a trajectory's force, potential or coupling is taken from another trajectory's state or velocity" % (cls, fn, active), {"module": "harness.C17", "func": "replay_tully_isolation", "args": {"active": act2}})
+                        return
+                    raise HarnessError("Tully isolation counterexample did not reproduce (%s)" % lab)
+                ob.verdict(v, lab)
+    a, b = z3.Reals("a b")
+    expect_refuted(ob, a == b, [], "twin: another trajectory's slope is not this trajectory's", "nra")
